@@ -353,7 +353,30 @@ def _same_key(draw):
             'multi': draw(st.lists(st.lists(st.tuples(st.integers(1, 400), st.integers(0, 2)).map(list), min_size=2, max_size=3), max_size=6))}
 
 
+@st.composite
+def _unhashable_key(draw):
+    """one thread uses an unhashable key (every operation raises TypeError and must leave the cache and its lock as they were),
+    the others carry on with ordinary operations afterwards"""
+    v = st.integers(0, 3)
+    bad = st.one_of(st.tuples(st.just('getitem'), st.just(UNHASHABLE)), st.tuples(st.just('get'), st.just(UNHASHABLE)),
+                    st.tuples(st.just('set'), st.just(UNHASHABLE), v), st.tuples(st.just('setdefault'), st.just(UNHASHABLE), v),
+                    st.tuples(st.just('pop'), st.just(UNHASHABLE)), st.tuples(st.just('del'), st.just(UNHASHABLE)),
+                    st.tuples(st.just('contains'), st.just(UNHASHABLE))).map(list)
+    good = st.one_of(st.tuples(st.just('set'), _k, v), st.tuples(st.just('getitem'), _k), st.tuples(st.just('len')),
+                     st.tuples(st.just('setdefault'), _k, v), st.tuples(st.just('copy'))).map(list)
+    progs = [draw(st.lists(bad, min_size=1, max_size=2)) + draw(st.lists(good, max_size=1)), draw(st.lists(good, min_size=1, max_size=2))]
+    if draw(st.booleans()):
+        progs.reverse()
+    return {'sub': 'sched', 'cls': draw(st.sampled_from(['LRI', 'LRU', 'LRU'])), 'max_size': draw(st.integers(1, 3)),
+            'on_miss': draw(st.sampled_from(['none', 'tuple'])), 'init': draw(st.lists(st.tuples(_k, v).map(list), max_size=2)),
+            'programs': progs, 'multi': []}
+
+
 def strat(tier):
+    return st.integers(0, 15).flatmap(lambda j: _unhashable_key() if j == 15 else _strat_mix(tier))
+
+
+def _strat_mix(tier):
     return st.integers(0, 7).flatmap(lambda i: _torn() if i == 0 else (_same_key() if i in (1, 2, 3) else _strat_general(tier)))
 
 
